@@ -414,7 +414,7 @@ TextIs(r, x) == Has(r, "v") /\ r.v = x
 KeepAll == KeepD /\ UNCHANGED <<e, eout>> /\ KeepS /\ KeepW
 
 (* the scale a form prints in *)
-FormScale == CASE E.form \in {"display", "iso8601", "isoformat"} -> e.ts
+FormScale == CASE E.form \in {"display", "iso8601", "isoformat", "serde"} -> e.ts
                [] E.form \in {"debug", "rfc3339"} -> X!UTC [] E.form = "lowerhex" -> X!TAI [] E.form = "upperhex" -> X!TT
                [] E.form = "lowerexp" -> X!TDB [] E.form = "upperexp" -> X!ET [] OTHER -> E.to
 FormText(ts, v) ==
